@@ -77,7 +77,11 @@ def run(repo, res):
     ad = repo.fn("util", "add_sampledata_times")
     dd = Defs(ad)
     vals = [v for v in dd.values("sites_time") if isinstance(v, ast.AST)]
-    ok = len(vals) == 1 and U(vals[0]).replace(" ", "") == "np.maximum(sites_time,sites_bound)" and U(dd.single("sites_bound")).replace(" ", "") == "samples.min_site_times(individuals_only=True)"
+    ok = False
+    if len(vals) == 1:
+        v = dd.inline(vals[0])
+        if isinstance(v, ast.Call) and U(v.func) == "np.maximum" and len(v.args) == 2 and not v.keywords:
+            ok = sorted(U(a).replace(" ", "") for a in v.args) == ["samples.min_site_times(individuals_only=True)", "sites_time"]
     res.require(ok, "R31.1", "util.add_sampledata_times takes the element-wise maximum of estimate and historical-sample bound", "combination differs", repo.loc(ad))
 
 
